@@ -195,3 +195,30 @@ def attempt(rec, fn, what="analysis"):
     except Exception as e:
         rec.violation(f"raises:{type(e).__name__}", f"{what} raised {type(e).__name__}: {e}")
     return None
+
+
+
+def single_bin_request(rng, fs, N, Lmax=None):
+    """One compute_single_bin request in the forms the API admits: frequency in the interior, at DC,
+    at Nyquist or on a DFT bin of the segment; resolution given as L or as fres (integer and
+    non-integer fs/fres, both rounding to the same L).  Returns (freq, kwargs, label)."""
+    Lmax = int(N if Lmax is None else min(N, Lmax))
+    L = int(rng.choice([min(Lmax, 8), min(Lmax, 48), min(Lmax, 300), int(rng.integers(1, Lmax + 1))]))
+    L = max(L, 1)
+    fk = str(rng.choice(["interior", "interior", "interior", "dc", "nyquist", "dft-bin"]))
+    if fk == "interior":
+        f = float(rng.uniform(0.02, 0.45)) * fs
+    elif fk == "dc":
+        f = 0.0
+    elif fk == "nyquist":
+        f = fs / 2
+    else:
+        f = fs * int(rng.integers(0, L // 2 + 1)) / L
+    u = rng.random()
+    if u < 0.25:
+        kw, how = {"fres": fs / (L + float(rng.uniform(-0.4, 0.4)))}, "fres-fractional"
+    elif u < 0.4:
+        kw, how = {"fres": fs / L}, "fres"
+    else:
+        kw, how = {"L": L}, "L"
+    return f, kw, f"{fk}/{how}"
